@@ -8,6 +8,15 @@
 (* configuration.  Every request is checked against the configuration and X  *)
 (* of the run that built the report.                                          *)
 (*                                                                            *)
+(* The configuration is not an input of a run: the uploader fetches whatever   *)
+(* the config server serves as "latest" when the run starts.  Publish(c)       *)
+(* makes c the latest version between runs; the uploader talks to the same     *)
+(* server with the same environment all the time.  A run happens either in    *)
+(* the process that did the previous runs or in a fresh one (`fresh`): for the *)
+(* specification that makes no difference - whatever an earlier run of the    *)
+(* process fetched, "the upload configuration fetched for the run" is the one *)
+(* published when the run starts.                                              *)
+(*                                                                            *)
 (* TLC checks the invariants on the whole state graph for small constants and *)
 (* produces -simulate behaviours; the harness replays them run by run into    *)
 (* the real upload.Run and compares requests and directory contents with the  *)
@@ -15,7 +24,8 @@
 EXTENDS ApprovalTok
 
 CONSTANTS WeekSet,    \* weeks whose files may arrive
-          MaxRuns
+          MaxRuns,
+          MaxPub      \* how many configuration versions are published in all
 VARIABLES pending,    \* expired counter files on disk (token level)
           archive,    \* week -> the files that were folded into its report
           built,      \* week -> [cfg, x, run] of the run that built its report
@@ -23,9 +33,11 @@ VARIABLES pending,    \* expired counter files on disk (token level)
           uploaded,   \* weeks whose report was acknowledged (upload/<week>.json)
           dropped,    \* weeks whose report the server refused (4xx): deleted, never sent again
           posts,      \* weeks whose report the server received during the last run
+          published,  \* the configuration the config server currently serves as "latest"
+          npub,       \* its version number: every publication is a new, higher version
           nrun, last,
           obs         \* what an observer of the machine and of the server sees (derived)
-vars == <<pending, archive, built, ready, uploaded, dropped, posts, nrun, last, obs>>
+vars == <<pending, archive, built, ready, uploaded, dropped, posts, published, npub, nrun, last, obs>>
 
 (* ---- universe: three configurations that differ in what they approve ---------*)
 HCfgs == [A |-> Cfg({Prog(P1, {V1}, {E("c", D), E("c:{a,b}", D)}, {E("s", D)}), Prog(P2, {V2}, {E("d", D)}, {})}, D),
@@ -48,7 +60,7 @@ Reported == DOMAIN built
 
 (* the body of the report of week w: fixed when it is built *)
 BodyOf(bl, ar, w) == LET b == bl[w]  cfg == CCfg(HCfgs[b.cfg])  files == CFiles(ar[w]) IN
-           [w |-> w, cfg |-> b.cfg, x |-> b.x,
+           [w |-> w, cfg |-> b.cfg, ver |-> b.ver, x |-> b.x,
             data |-> TData(UploadReport5(cfg, files, w, b.x)),
             progs |-> UploadBuilds(Approved5, cfg, files, w),
             local |-> TData(LocalReport(files, w))]
@@ -60,32 +72,57 @@ ViewOf(bl, ar, rd, ps, up, pd) ==
 
 Init == /\ pending = {} /\ archive = <<>> /\ built = <<>> /\ ready = {} /\ uploaded = {} /\ dropped = {}
         /\ posts = {} /\ nrun = 0 /\ last = [op |-> "init"]
+        /\ published \in CfgIds /\ npub = 1
         /\ obs = ViewOf(<<>>, <<>>, {}, {}, {}, {})
 
 Arrive(w, fs) ==
     /\ w \notin Reported /\ \A f \in pending : f.week # w
     /\ pending' = pending \cup fs
     /\ last' = [op |-> "arrive", w |-> w]
-    /\ UNCHANGED <<archive, built, ready, uploaded, dropped, posts, nrun>>
+    /\ UNCHANGED <<archive, built, ready, uploaded, dropped, posts, published, npub, nrun>>
 
-Run(c, x, reply) ==
+Publish(c) ==
+    /\ npub < MaxPub /\ c # published
+    /\ published' = c /\ npub' = npub + 1
+    /\ last' = [op |-> "publish", cfg |-> c, ver |-> npub + 1]
+    /\ UNCHANGED <<pending, archive, built, ready, uploaded, dropped, posts, nrun>>
+
+Run(x, reply, fresh) ==
     /\ nrun < MaxRuns
     /\ LET new == {f.week : f \in pending}
            send == ready \cup new
        IN /\ archive' = [w \in DOMAIN archive \cup new |-> IF w \in new THEN {f \in pending : f.week = w} ELSE archive[w]]
-          /\ built' = [w \in DOMAIN built \cup new |-> IF w \in new THEN [cfg |-> c, x |-> x, run |-> nrun + 1] ELSE built[w]]
+          /\ built' = [w \in DOMAIN built \cup new |-> IF w \in new THEN [cfg |-> published, ver |-> npub, x |-> x, run |-> nrun + 1] ELSE built[w]]
           /\ posts' = send
           /\ ready' = IF ~Acked(reply) /\ ~Refused(reply) THEN send ELSE {}
           /\ uploaded' = IF Acked(reply) THEN uploaded \cup send ELSE uploaded
           /\ dropped' = IF Refused(reply) THEN dropped \cup send ELSE dropped
     /\ pending' = {}
     /\ nrun' = nrun + 1
-    /\ last' = [op |-> "run", cfg |-> c, x |-> x, reply |-> reply]
+    /\ last' = [op |-> "run", cfg |-> published, ver |-> npub, x |-> x, reply |-> reply, fresh |-> fresh]
+    /\ UNCHANGED <<published, npub>>
 
 Next == /\ \/ \E w \in WeekSet : \E fs \in HFiles(w) : Arrive(w, fs)
-           \/ \E c \in CfgIds, x \in HXs, reply \in Replies : Run(c, x, reply)
+           \/ \E c \in CfgIds : Publish(c)
+           \/ \E x \in HXs, reply \in Replies, fresh \in BOOLEAN : Run(x, reply, fresh)
         /\ obs' = ViewOf(built', archive', ready', posts', uploaded', pending')
 Spec == Init /\ [][Next]_vars
+
+(* The same actions in a fixed rhythm, used for half of the -simulate walks:  *)
+(* (files arrive)? , run , publish , (files arrive)? , run , publish ...  so    *)
+(* that every walk has consecutive runs with the published configuration       *)
+(* changing in between (random walks of Next rarely take the Publish step).     *)
+NextCycle == /\ \/ /\ last.op \in {"init", "publish"}
+                   /\ \/ \E w \in WeekSet : \E fs \in HFiles(w) : Arrive(w, fs)
+                      \/ \E x \in HXs, reply \in Replies, fresh \in BOOLEAN : Run(x, reply, fresh)
+                \/ /\ last.op = "arrive"
+                   /\ \E x \in HXs, reply \in Replies, fresh \in BOOLEAN : Run(x, reply, fresh)
+                \/ /\ last.op = "run"
+                   /\ IF npub < MaxPub THEN \E c \in CfgIds : Publish(c)
+                      ELSE \/ \E w \in WeekSet : \E fs \in HFiles(w) : Arrive(w, fs)
+                           \/ \E x \in HXs, reply \in Replies, fresh \in BOOLEAN : Run(x, reply, fresh)
+             /\ obs' = ViewOf(built', archive', ready', posts', uploaded', pending')
+SpecCycle == Init /\ [][NextCycle]_vars
 
 (* ---- properties -----------------------------------------------------------------------*)
 TypeOK == /\ ready \subseteq Reported /\ uploaded \subseteq Reported /\ dropped \subseteq Reported
@@ -100,6 +137,10 @@ PostedIsApprovedByItsBuilder ==
         /\ C01BodyOK(cfg, files, w, b.x, UploadBuilds(Approved5, cfg, files, w), UploadReport5(cfg, files, w, b.x))
         /\ \A t \in UploadReport5(cfg, files, w, b.x) : NameApproved(cfg, t.b.program, t.n, b.x)
         /\ b.run <= nrun
+(* a report is built under the configuration that is published when its run  *)
+(* starts, whatever earlier runs (of the same process or not) fetched          *)
+BuiltUnderPublished == [][(nrun' = nrun + 1) => \A w \in DOMAIN built' \ DOMAIN built :
+                             built'[w].cfg = published /\ built'[w].ver = npub /\ built'[w].run = nrun + 1]_vars
 (* a report leaves the machine only while unacknowledged: nothing acknowledged *)
 (* or refused is ever posted again                                              *)
 NoResend == [][(nrun' = nrun + 1) => \A w \in (uploaded \cup dropped) : w \notin posts']_vars
